@@ -245,10 +245,15 @@ def guard_of_panic(prog, body, bb):
     return None
 
 
+PREMISE_PROG = None     # premises are evaluated on the dev-profile program (their rules read dev MIR shapes)
+
+
 def sub_check(prog, module, rules=None):
     """run another property's rule set on this tree as a lemma premise; -> (ok, failing keys)"""
     import importlib
     from report import Check
+    if PREMISE_PROG is not None:
+        prog = PREMISE_PROG
     mod = importlib.import_module("rules." + module)
     sub = Check(module.upper(), "quick", "other", 0)
     try:
@@ -367,7 +372,7 @@ def run(prog, chk, tier, analysis=None):
         chk.ob("open", inst, False, where=short_span(rec["span"]),
                detail="%s; reached from entry %s via %s (%d of %d context(s) open)" % (c[2], c[3], _ctx_path(c[1]), len(bad), len(rec["ctx"])))
     chk.counts["obligations_by_kind"] = by_kind
-    chk.floor("panic-obligations", n_src, 150)
+    chk.floor("panic-obligations", n_src, 150 if cfg.get("overflow_checks") else 90)
     lemmas.report()
     termination(prog, chk, an, reach)
     chk.sample({"what": "obligation kinds", "counts": by_kind})
@@ -875,6 +880,8 @@ def run_thorough(prog, chk):
     """repeat under the release profile (no debug assertions, wrapping arithmetic) and with the `arbitrary` feature"""
     import mir
     from report import Check
+    global PREMISE_PROG
+    PREMISE_PROG = prog
     for cfgname in ("release", "arbitrary"):
         try:
             p2 = mir.build_program(config=cfgname)
